@@ -471,11 +471,11 @@ theorem join_inv_step
       · exact hx'
       · exact hr y hy'
     cases res with
-    | item a => simp only [join, hstep, joinOn_item]; exact ⟨h1, keep⟩
-    | skip => simp only [join, hstep]; exact ⟨h1, keep⟩
-    | err e => simp only [join, hstep, joinOn_err]; exact ⟨h1, keep⟩
+    | item a => simp only [join_step_cons, hstep, joinOn_item]; exact ⟨h1, keep⟩
+    | skip => simp only [join_step_cons, hstep]; exact ⟨h1, keep⟩
+    | err e => simp only [join_step_cons, hstep, joinOn_err]; exact ⟨h1, keep⟩
     | end_ =>
-      simp only [join, hstep, joinOn_end, stJoinClosesEnded_fact, stJoinAdvances_fact, if_true]
+      simp only [join_step_cons, hstep, joinOn_end, stJoinClosesEnded_fact, stJoinAdvances_fact, if_true]
       refine ⟨fun y hy' => ?_, hr⟩
       simp only [List.mem_append, List.mem_singleton] at hy'
       rcases hy' with hy' | rfl
